@@ -62,8 +62,12 @@ func guardTerms(r *PathRow) []*Term {
 }
 
 // calleeInArm: the function the boolean dispatcher calls for node kind name.
-func (p *Prog) boolArm(kind string) *ssa.Function {
-	bd := p.ssaOf(p.A.BoolDispatcher)
+func (p *Prog) boolArm(kind string) *ssa.Function { return p.armOf(p.ssaOf(p.A.BoolDispatcher), kind) }
+
+// itemArm: the function the node dispatcher calls for node kind name.
+func (p *Prog) itemArm(kind string) *ssa.Function { return p.armOf(p.ssaOf(p.A.Dispatcher), kind) }
+
+func (p *Prog) armOf(bd *ssa.Function, kind string) *ssa.Function {
 	if bd == nil {
 		return nil
 	}
@@ -595,5 +599,322 @@ func init() {
 		Decided:     []string{"R-KLEENE: complete tables of &&, ||, !, is unknown, exists (lax and strict), short-circuit arms and error columns", "R-PAIR-P: operands return coherent (outcome, error) pairs"},
 		NotDecided:  []string{"that operand evaluation itself yields the right outcome", "the error column of `is unknown` for non-cancellation errors (known finding under C08)"},
 		Assumptions: []string{"the three outcome constants are the only values of the outcome type"},
+	})
+}
+
+// --- C10: the filter arm ------------------------------------------------------------
+
+var ruleFilter = &Rule{
+	Name: "R-FILTER", NeedSSA: true,
+	Doc: "decision table of the filter arm: in lax mode an array operand is unwrapped before the condition is evaluated; otherwise the condition is evaluated once on Operand() with the tested item, an error aborts with (failed, err), any outcome but true drops the item with (not found, nil), and true hands the very same item to the continuation; the condition executor binds @ to the tested item; a predicate used as an item maps unknown/true/false to null/true/false",
+	Run: func(p *Prog) *RuleOut {
+		out := newOut("R-FILTER")
+		T, _, _, err := p.predTF()
+		if err != nil {
+			out.undecided("outcome constants", "-", "", err.Error())
+			return out
+		}
+		fu := p.itemArm("UnaryNode")
+		if fu == nil {
+			out.undecided("unary item executor", "-", "", "anchor unresolved")
+			return out
+		}
+		tx, rows := p.extractTable(fu, nil, &TableCfg{})
+		ei := p.A.Enums["UnaryOperator"]
+		opAtom := tx.enumGetterAtom(ei)
+		fc := ei.byName("UnaryFilter")
+		if opAtom == "" || fc == nil {
+			out.undecided("filter arm", p.pos(fu.Pos()), fnName(fu), "operator atom unresolved")
+			return out
+		}
+		failed := constOf(p.A.StatusFailed)
+		var valueParam *ssa.Parameter
+		for _, q := range fu.Params {
+			if it, ok := q.Type().Underlying().(*types.Interface); ok && it.NumMethods() == 0 {
+				valueParam = q
+			}
+		}
+		n := 0
+		var probs []string
+		var condFn *ssa.Function
+		for _, r := range rows {
+			if r.Loop != nil || len(r.Out) != 2 {
+				continue
+			}
+			names := tx.atomsOf(append(guardTerms(r), r.Out...)...)
+			for _, as := range tx.assignments(names, Assign{opAtom: constOf(fc)}) {
+				if ok, _ := tx.satisfied(r, as); !ok {
+					continue
+				}
+				n++
+				var condCall, contCall, unwrapCall *ssa.Call
+				for _, c := range r.Calls {
+					sig := calleeSig(c)
+					if sig == nil {
+						continue
+					}
+					switch p.pairKind(sig) {
+					case "pred":
+						condCall = c
+					case "status":
+						if condCall == nil {
+							unwrapCall = c
+						} else {
+							contCall = c
+						}
+					}
+				}
+				got, gerr := tx.eval(r.Out[0], as, 0), tx.eval(r.Out[1], as, 0)
+				where := p.pos(r.End.Pos())
+				if condCall == nil {
+					// unwrap case: must be (unwrap ∧ value is an array) and return the call's results
+					if unwrapCall == nil {
+						probs = append(probs, "path at "+where+" neither evaluates the condition nor unwraps")
+						continue
+					}
+					if as["unwrap"] != 1 {
+						probs = append(probs, "array operand is unwrapped although unwrap is off (path at "+where+")")
+					}
+					if !p.passesParam(unwrapCall, valueParam) {
+						probs = append(probs, "the unwrap call at "+p.pos(unwrapCall.Pos())+" does not receive the tested value")
+					}
+					if r.Out[0].Kind != "atom" || r.Out[0].Atom != atomKey(unwrapCall, 0) || r.Out[1].Kind != "atom" || r.Out[1].Atom != atomKey(unwrapCall, 1) {
+						probs = append(probs, "the unwrap path at "+where+" does not return the results of the unwrapping call")
+					}
+					continue
+				}
+				condFn = condCall.Call.StaticCallee()
+				if unwrapCall != nil {
+					probs = append(probs, "the condition is evaluated after an unwrapping call on the same path ("+where+")")
+				}
+				if !isGetterOf(condCall.Call.Args[2], "Operand") || !p.passesParam(condCall, valueParam) {
+					probs = append(probs, "the condition at "+p.pos(condCall.Pos())+" is not Operand() evaluated on the tested item")
+				}
+				st, e1 := atomKey(condCall, 0), atomKey(condCall, 1)
+				sv, hasS := as[st]
+				ev := as[e1]
+				switch {
+				case ev == 1:
+					if got.Kind != "int" || got.K != failed || gerr.Kind != "ref" || gerr.Ref != e1 {
+						probs = append(probs, fmt.Sprintf("condition error → (%v, %s) at %s, expected (failed, that error)", got.K, errValName(gerr), where))
+					}
+				case hasS && sv == T:
+					if contCall == nil {
+						probs = append(probs, "outcome true does not reach the continuation (path at "+where+")")
+						continue
+					}
+					if !p.passesParam(contCall, valueParam) {
+						probs = append(probs, "the item handed to the continuation at "+p.pos(contCall.Pos())+" is not the tested item")
+					}
+					if r.Out[0].Kind != "atom" || r.Out[0].Atom != atomKey(contCall, 0) || r.Out[1].Kind != "atom" || r.Out[1].Atom != atomKey(contCall, 1) {
+						probs = append(probs, "outcome true does not return the continuation's results (path at "+where+")")
+					}
+				case hasS:
+					if contCall != nil {
+						probs = append(probs, fmt.Sprintf("outcome %d (not true) still reaches the continuation at %s", sv, p.pos(contCall.Pos())))
+					}
+					if got.Kind != "int" || got.K == failed || gerr.Kind != "nil" {
+						probs = append(probs, fmt.Sprintf("outcome %d (not true) → (%v, %s) at %s, expected (not found, nil): the item must be dropped without aborting", sv, got.K, errValName(gerr), where))
+					}
+					if c := p.A.StatusConsts["statusOK"]; c != nil && got.Kind == "int" && got.K == constOf(c) {
+						probs = append(probs, fmt.Sprintf("outcome %d (not true) reports OK at %s", sv, where))
+					}
+				default:
+					probs = append(probs, "path at "+where+" does not test the condition's outcome")
+				}
+			}
+		}
+		sort.Strings(probs)
+		probs = uniq(probs)
+		if n >= 5 && len(probs) == 0 {
+			out.ok("decision table of the filter arm", p.pos(fu.Pos()), fnName(fu), fmt.Sprintf("%d (unwrap, array?, outcome, error) combinations agree with the stated table", n))
+		} else if n < 5 {
+			out.viol("decision table of the filter arm", p.pos(fu.Pos()), fnName(fu), fmt.Sprintf("only %d combinations found for the filter operator", n))
+		} else {
+			out.viol("decision table of the filter arm", p.pos(fu.Pos()), fnName(fu), "the filter deviates from 'keep exactly the items whose condition is true': "+probs[0], probs...)
+		}
+		out.Counts["filter_cells"] = n
+		out.Floors["filter_cells"] = 5
+
+		// @ is bound to the tested item by the condition executor
+		cur := p.fieldReadInConstArm("ConstCurrent")
+		if condFn == nil || cur == nil {
+			out.undecided("@ is bound to the tested item", "-", "", "condition executor or the field holding @ unresolved")
+		} else {
+			good := false
+			var vp *ssa.Parameter
+			for _, q := range condFn.Params {
+				if it, ok := q.Type().Underlying().(*types.Interface); ok && it.NumMethods() == 0 {
+					vp = q
+				}
+			}
+			for _, s := range p.execStores(condFn) {
+				if s.Field == cur && s.Store.Val == ssa.Value(vp) {
+					// before the evaluation call, which receives the same value
+					for _, c := range p.execMethodCalls(condFn) {
+						if before(s.Store, c) && p.passesParam(c, vp) {
+							good = true
+						}
+					}
+				}
+			}
+			if good {
+				out.ok("@ is bound to the tested item", p.pos(condFn.Pos()), fnName(condFn), "stores the item into "+cur.Name()+" before evaluating the condition on the same item")
+			} else {
+				out.viol("@ is bound to the tested item", p.pos(condFn.Pos()), fnName(condFn), "the condition is not evaluated with @ bound to the tested item")
+			}
+		}
+
+		// predicate used as an item
+		p.predicateAsItem(out, T)
+		return out
+	},
+}
+
+// passesParam: the call has q among its arguments.
+func (p *Prog) passesParam(c *ssa.Call, q *ssa.Parameter) bool {
+	if q == nil {
+		return false
+	}
+	for _, a := range c.Call.Args {
+		if stripConv(a) == ssa.Value(q) {
+			return true
+		}
+	}
+	return false
+}
+
+// predicateAsItem: the function that takes an outcome and an error and hands a
+// value to the continuation maps unknown → nil, true → true, false → false.
+func (p *Prog) predicateAsItem(out *RuleOut, T int64) {
+	U := constOf(p.A.PredUnknown)
+	var fn *ssa.Function
+	var resP, errP *ssa.Parameter
+	for _, f := range p.execFuncs() {
+		if p.pairKind(f.Signature) != "status" {
+			continue
+		}
+		var rp, ep *ssa.Parameter
+		for _, q := range f.Params {
+			if types.Identical(q.Type(), p.A.PredType) {
+				rp = q
+			}
+			if isErrorType(q.Type()) {
+				ep = q
+			}
+		}
+		if rp != nil && ep != nil {
+			fn, resP, errP = f, rp, ep
+		}
+	}
+	key := "predicate as item: unknown/true/false → null/true/false"
+	if fn == nil {
+		out.undecided(key, "-", "", "anchor unresolved: function taking (outcome, error) and returning a status")
+		return
+	}
+	var cont *ssa.Function
+	tx, rows := p.extractTable(fn, nil, &TableCfg{Sink: func(ins ssa.Instruction) []ssa.Value {
+		c, ok := ins.(*ssa.Call)
+		if !ok || !isMethodOfExecutor(p, c.Call.StaticCallee()) || p.pairKind(c.Call.StaticCallee().Signature) != "status" {
+			return nil
+		}
+		// the interface-typed argument is the value
+		for _, a := range c.Call.Args {
+			if it, ok := a.Type().Underlying().(*types.Interface); ok && it.NumMethods() == 0 {
+				cont = c.Call.StaticCallee()
+				return []ssa.Value{a}
+			}
+		}
+		return nil
+	}})
+	failed := constOf(p.A.StatusFailed)
+	n := 0
+	var probs []string
+	for _, r := range rows {
+		if r.Loop != nil {
+			continue
+		}
+		names := tx.atomsOf(append(guardTerms(r), r.Out...)...)
+		hasRes := false
+		for _, nm := range names {
+			if nm == resP.Name() {
+				hasRes = true
+			}
+		}
+		if !hasRes {
+			names = append(names, resP.Name())
+			tx.term(resP, r, 0)
+		}
+		hasErr := false
+		for _, nm := range names {
+			if nm == errP.Name() {
+				hasErr = true
+			}
+		}
+		if !hasErr {
+			names = append(names, errP.Name())
+			tx.term(errP, r, 0)
+		}
+		for _, as := range tx.assignments(names, nil) {
+			if ok, _ := tx.satisfied(r, as); !ok {
+				continue
+			}
+			if as[errP.Name()] == 1 && as[resP.Name()] != U {
+				continue
+			}
+			n++
+			_, isRet := r.End.(*ssa.Return)
+			if as[errP.Name()] == 1 {
+				if !isRet || len(r.Out) != 2 {
+					probs = append(probs, "an error does not return immediately")
+					continue
+				}
+				got, gerr := tx.eval(r.Out[0], as, 0), tx.eval(r.Out[1], as, 0)
+				if got.Kind != "int" || got.K != failed || gerr.Kind != "ref" {
+					probs = append(probs, "error → ("+fmt.Sprint(got.K)+", "+errValName(gerr)+"), expected (failed, the error)")
+				}
+				continue
+			}
+			if isRet {
+				continue // early exit without a collector: no value is produced
+			}
+			v := tx.eval(r.Out[0], as, 0)
+			rv := as[resP.Name()]
+			switch {
+			case rv == U:
+				if v.Kind != "nil" {
+					probs = append(probs, "unknown is handed on as "+v.Kind+fmt.Sprint(v.K)+", expected null")
+				}
+			case rv == T:
+				if v.Kind != "int" || v.K != 1 {
+					probs = append(probs, "true is not handed on as true")
+				}
+			default:
+				if v.Kind != "int" || v.K != 0 {
+					probs = append(probs, "false is not handed on as false")
+				}
+			}
+		}
+	}
+	sort.Strings(probs)
+	probs = uniq(probs)
+	_ = cont
+	if n >= 4 && len(probs) == 0 {
+		out.ok(key, p.pos(fn.Pos()), fnName(fn), fmt.Sprintf("%d (outcome, error) combinations", n))
+	} else {
+		out.viol(key, p.pos(fn.Pos()), fnName(fn), fmt.Sprintf("%d combinations; %s", n, strings.Join(probs, "; ")))
+	}
+}
+
+func init() {
+	register(ruleFilter)
+	addProp(&PropSpec{
+		ID:          "C10",
+		Rules:       []string{"R-FILTER", "R-STATE", "R-PAIR-P"},
+		Explanation: "The filter is a small decision procedure: its complete table over (unwrap, operand is an array, condition outcome, condition error) is extracted from the filter arm and compared with 'keep exactly the items whose condition is true, hand on the very same item, drop the others without aborting, abort only on an error'; @ is bound to the tested item and restored on every exit (typestate); the outcome→item mapping of predicate check expressions is extracted likewise.",
+		Decided: []string{"R-FILTER: table of the filter arm, identity of tested and forwarded item, unwrap-before-condition, @ binding, predicate-as-item mapping",
+			"R-STATE: @ restored on every exit of the condition executor", "R-PAIR-P: an error from the condition is (failed, err), never (not found, err)"},
+		NotDecided:  []string{"equivalence with the predicate-check rewriting of the condition", "consecutive filters equal one filter on the conjunction (value level)"},
+		Assumptions: []string{},
 	})
 }
